@@ -106,10 +106,12 @@ def run(chk, tier):
                  detail="Metrics::new is called from %s" % m_new)
         a = prog.adts.get("arena::Arena")
         if chk.anchor("arena::Arena", a is not None):
-            ctxf = [f for f in a["variants"][0]["fields"] if f["name"] == "context"]
-            ok = bool(ctxf) and ctxf[0]["ty_s"].startswith("alloc::boxed::Box<context::Context") and not ctxf[0]["pub"]
+            # the field is found by what it holds (its name is private)
+            ctxf = [f for f in a["variants"][0]["fields"] if "context::Context" in f.get("ty_s", "")]
+            ok = len(ctxf) == 1 and ctxf[0]["ty_s"].startswith("alloc::boxed::Box<context::Context") and not ctxf[0]["pub"]
             chk.inst("arena-owns-its-context", "arena::Arena.context[%s]" % c, ok,
-                     detail="Arena.context is `%s` (must be a private Box<Context>)" % (ctxf[0]["ty_s"] if ctxf else None))
+                     detail="Arena holds its collector context as %s (must be exactly one private Box<Context>)" % (
+                         [f["ty_s"] for f in ctxf] or None))
         for dn in ("<dynamic_roots::DynamicRoot as core::ops::drop::Drop>::drop", "<dynamic_roots::DynamicRoot as core::clone::Clone>::clone"):
             if not chk.anchor(dn, dn in prog.seed_n):
                 continue
